@@ -94,6 +94,11 @@ pub fn run_step(engine: &mut Engine, cap: &mut OutCapture, step: &Value) -> Valu
             let v: Vec<usize> = (0..16).map(steel::verif::counter).collect();
             json!({"s":"ok","v":v,"out":""})
         }
+        "gcplan" => {
+            let on = step.get("on").and_then(|b| b.as_bool()).unwrap_or(true);
+            steel::verif::enable_gc_plan(on);
+            json!({"s":"ok","v":[on],"out":""})
+        }
         "depths" => {
             let (a, b) = steel::verif::stack_depths(engine);
             json!({"s":"ok","v":[a, b],"out":""})
